@@ -9,23 +9,30 @@ variables in exact-size blocks with EVERY index assignment and compare value, AL
 variables — the sequence of reallocations is an observable the value-level models do not have."""
 from genlib import *
 
-LEAN_MODULES = ["MpirProofs.Props.C05_div", "MpirProofs.Props.C05_mpz"]
+LEAN_MODULES = ["MpirProofs.Props.C05_div", "MpirProofs.Props.C05_mpz", "MpirProofs.Props.C05_mpf"]
 THEOREMS = ["Mpir.AliasMem.ofInts_ok",
             "Mpir.AliasMem.tdiv_qr_ptr_spec", "Mpir.AliasMem.tdiv_qr_alias", "Mpir.AliasMem.tdiv_q_ptr_spec", "Mpir.AliasMem.tdiv_r_ptr_spec",
             "Mpir.AliasMem.cfdiv_qr_ptr_spec", "Mpir.AliasMem.cfdiv_qr_alias", "Mpir.AliasMem.cfdiv_q_ptr_spec", "Mpir.AliasMem.cfdiv_r_ptr_spec",
             "Mpir.AliasMem.mod_ptr_spec", "Mpir.AliasMem.divexact_ptr_spec", "Mpir.AliasMem.div3_alias",
             "Mpir.AliasMem.mul_2exp_ptr_spec", "Mpir.AliasMem.tdiv_q_2exp_ptr_spec",
-            "Mpir.AliasMem.mpz_and_ptr_spec", "Mpir.AliasMem.mpz_xor_ptr_spec", "Mpir.AliasMem.logic_ptr_spec", "Mpir.AliasMem.mpz_com_ptr_spec"]
+            "Mpir.AliasMem.mpz_and_ptr_spec", "Mpir.AliasMem.mpz_xor_ptr_spec", "Mpir.AliasMem.logic_ptr_spec", "Mpir.AliasMem.mpz_com_ptr_spec",
+            "Mpir.Mpf.mpf_neg_alias", "Mpir.Mpf.mpf_abs_alias", "Mpir.Mpf.mpf_add_alias", "Mpir.Mpf.mpf_sub_alias",
+            "Mpir.Mpf.mpf_add_ui_alias", "Mpir.Mpf.mpf_sub_ui_alias", "Mpir.Mpf.mpf_ui_sub_alias"]
 PINS = [("mpz/tdiv_qr.c", None), ("mpz/tdiv_q.c", None), ("mpz/tdiv_r.c", None),
         ("mpz/fdiv_qr.c", None), ("mpz/cdiv_qr.c", None), ("mpz/fdiv_q.c", None), ("mpz/cdiv_q.c", None),
         ("mpz/fdiv_r.c", None), ("mpz/cdiv_r.c", None), ("mpz/mod.c", None), ("mpz/divexact.c", None),
         ("mpz/mul_2exp.c", None), ("mpz/tdiv_q_2exp.c", None),
         ("mpz/and.c", None), ("mpz/ior.c", None), ("mpz/xor.c", None), ("mpz/com.c", None),
+        ("mpf/neg.c", None), ("mpf/abs.c", None), ("mpf/add.c", None), ("mpf/sub.c", None), ("mpf/add_ui.c", None),
+        ("mpf/sub_ui.c", None), ("mpf/ui_sub.c", None),
         ("mpz/realloc.c", None), ("gmp-impl.h", "MPZ_REALLOC"), ("gmp-impl.h", "MPZ_TMP_INIT"),
         ("mpz/set.c", None), ("mpz/aors.h", None), ("mpz/aors_ui.h", None)]
 TRUSTED = ["hand-written pointer-level model lean/Mpir/Model/AliasMem.lean (tied by the ops alias_* on every index assignment: values, ALLOC and "
            "which blocks moved; source pins on the mpz division wrappers, realloc.c, MPZ_REALLOC, MPZ_TMP_INIT, set.c, aors.h, aors_ui.h)"]
-ASSUMPTIONS = ["pointer-level model: mpn_tdiv_qr / mpn_tdiv_q / mpn_add / mpn_sub are taken at their contract on values (limb-level proofs: C02, C03); "
+ASSUMPTIONS = ["mpf: the alias theorems are about the bit-exact model lean/Mpir/Model/Mpf.lean (tied by the C13 ops): they cover the pointer tests the C makes "
+               "(r == u, r == v); functions without a pointer test (mul, div, sqrt, floor, ceil, trunc, mul_2exp, div_2exp) are functions of the operand values in "
+               "that model, their in-place limb traffic rests on the differential run",
+               "pointer-level model: mpn_tdiv_qr / mpn_tdiv_q / mpn_add / mpn_sub are taken at their contract on values (limb-level proofs: C02, C03); "
                "an operand overlap their contract forbids is an error of the model, in-place operation the contract allows is not",
                "SIZ of a local MPZ_TMP_INIT variable is uninitialised in C and 0 in the model (no mirrored function reads it before writing it)"]
 
